@@ -37,6 +37,15 @@ pub fn prop_tag(prop: &str) -> u64 {
     h.get()
 }
 
+/// Does a violation class belong to the property under check? C12 is stated in terms of C01, C03, C07, C08 and C09 for
+/// constructor-built transforms, so in C12 worlds the oracles of those properties are C12's own.
+pub fn owns(prop_lower: &str, class: &str) -> bool {
+    if class.starts_with(prop_lower) {
+        return true;
+    }
+    prop_lower == "c12" && ["c03.", "c07.", "c08.", "c09."].iter().any(|p| class.starts_with(p))
+}
+
 pub fn run_seed(verif_seed: u64, prop: &str, index: u64) -> u64 {
     mix(mix(verif_seed, prop_tag(prop)), index)
 }
@@ -353,6 +362,71 @@ fn gen_c15(rng: &mut Rng, tier: Tier) -> Case {
                 Op::BadCall { inst, entry: Entry::Immut, fault: pick_fault(rng), place: pick_place(rng), seed: rng.next() }
             } else {
                 Op::Crash { inst, entry: Entry::Immut, k: pick_k(rng, 4), input: pick_input(rng), at: rng.next() }
+            };
+            let pos = rng.below(case.threads[t].len() as u64 + 1) as usize;
+            case.threads[t].insert(pos, op);
+        }
+    }
+    case
+}
+
+/// C12 worlds: every instance is a nest of the public constructors (within their documented preconditions); each is
+/// subjected to the fault grids of C08/C09, neighbour poison and sub-slice splits (C07), guard-paged calls (C03) and the
+/// DFT reference (C01 clause), while other simulated threads use the same instance.
+fn gen_c12(rng: &mut Rng, tier: Tier, miri: bool) -> Case {
+    let elem = pick_elem(rng, 8);
+    let mut case = base_case("C12", elem, rng);
+    let nmax = if miri {
+        if tier.thorough {
+            160
+        } else {
+            64
+        }
+    } else if tier.thorough && rng.chance(0.25) {
+        20000
+    } else {
+        2048
+    };
+    let depth = if miri { 1 + rng.below(2) as u32 } else { 1 + rng.below(if tier.thorough { 4 } else { 3 }) as u32 };
+    let ninst = if miri { 1 } else { 1 + rng.below(2) as usize };
+    for _ in 0..ninst {
+        let mut spec = ctor_tree(rng, depth, nmax, pks_for(elem));
+        for _ in 0..6 {
+            if !spec.is_planned() {
+                break;
+            }
+            spec = ctor_tree(rng, depth, nmax, pks_for(elem));
+        }
+        case.insts.push(InstDef { spec, dir: pick_dir(rng), from_planner: None });
+    }
+    let nthreads = if miri { 1 } else { 1 + rng.below(3) as usize };
+    case.threads = vec![Vec::new(); nthreads];
+    if !miri && rng.chance(0.4) {
+        let inst = rng.below(ninst as u64) as u16;
+        let k = 2 + rng.below(5) as u8;
+        let entry = *rng.pick(&ENTRIES);
+        case.shared_bufs.push(SharedBufDef { inst, k, input: InputSpec { seed: rng.next(), kind: InputKind::Dense }, entry, place: pick_place(rng) });
+        for chunk in 0..k {
+            let t = rng.below(nthreads as u64) as usize;
+            case.threads[t].push(Op::SplitChunk { inst: InstRef::Shared(inst), entry, buf: 0, chunk });
+        }
+    }
+    for t in 0..nthreads {
+        let nops = if miri { 3 } else { 2 + rng.below(4) as usize };
+        for _ in 0..nops {
+            let inst = InstRef::Shared(rng.below(ninst as u64) as u16);
+            let r = rng.below(100);
+            let op = if r < 35 {
+                Op::Call { inst, entry: *rng.pick(&ENTRIES), k: pick_k(rng, if miri { 3 } else { 6 }), input: pick_input(rng), scratch_extra: *rng.pick(&[0u32, 0, 0, 1, 17]), scratch_fill: *rng.pick(&FILLS), out_fill: *rng.pick(&FILLS), place: pick_place(rng), dft_ref: true }
+            } else if r < 50 {
+                Op::BadCall { inst, entry: *rng.pick(&ENTRIES), fault: pick_fault(rng), place: pick_place(rng), seed: rng.next() }
+            } else if r < 65 && !miri {
+                Op::ShapeGrid { inst, entry: *rng.pick(&ENTRIES), kmax: 2 + rng.below(2) as u8, seed: rng.next() }
+            } else if r < 80 && !miri {
+                Op::ScratchGrid { inst, entry: *rng.pick(&SCRATCH_ENTRIES), k: 1 + rng.below(3) as u8, input: InputSpec { seed: rng.next(), kind: InputKind::Dense } }
+            } else {
+                let k = 1 + rng.below(if miri { 3 } else { 6 }) as u8;
+                Op::Poison { inst, entry: *rng.pick(&ENTRIES), k, keep: rng.below(k as u64) as u8, fill: *rng.pick(&[Fill::NaN, Fill::PosInf, Fill::NegInf, Fill::Huge]), input: InputSpec { seed: rng.next(), kind: InputKind::Dense } }
             };
             let pos = rng.below(case.threads[t].len() as u64 + 1) as usize;
             case.threads[t].insert(pos, op);
@@ -794,6 +868,7 @@ pub fn gen_case(prop: &str, tier: Tier, verif_seed: u64, index: u64, engine_miri
                 };
                 gen_c03(&mut rng, tier, true, fixed)
             }
+            "C12" => gen_c12(&mut rng, tier, true),
             _ => gen_miri_shared(prop, &mut rng, tier, index, verif_seed),
         }
     } else {
@@ -805,6 +880,7 @@ pub fn gen_case(prop: &str, tier: Tier, verif_seed: u64, index: u64, engine_miri
             "C09" => gen_c09(&mut rng, tier),
             "C10" => gen_c10(&mut rng, tier, index),
             "C11" => gen_c11(&mut rng, tier),
+            "C12" => gen_c12(&mut rng, tier, false),
             "C13" => gen_c13(&mut rng, tier, index),
             "C15" => gen_c15(&mut rng, tier),
             _ => panic!("rfsim: no generator for property {}", prop),
